@@ -20,7 +20,7 @@ tvars == <<vars, l, done>>
 
 Rec == TraceLog[l]
 
-TraceInit == doc = Baseline("recording", "utf8", "rulesLast") /\ n = 0 /\ l = 1 /\ done = FALSE
+TraceInit == doc = Baseline("recording", "utf8", "rulesLast", "prometheus") /\ n = 0 /\ l = 1 /\ done = FALSE
 
 AsSet(seq) == {seq[i] : i \in 1..Len(seq)}
 
@@ -30,7 +30,7 @@ TDoc ==
          o == Rec.obs IN
      /\ doc' = d
      \* (4a) the property, on observed outputs only
-     /\ IF o.clean /\ ~o.prom_ok
+     /\ IF d.schema = "prometheus" /\ o.clean /\ ~o.prom_ok
         THEN PrintT(<<"VIOL", Rec.id, ToJson([devs |-> Devs(d), kind |-> d.kind, names |-> d.names, order |-> d.order,
                                              prom_err |-> o.prom_err, yaml |-> Rec.yaml])>>)
         ELSE TRUE
